@@ -70,3 +70,13 @@ func verifIsExpression(n Node) bool { return n.IsExpression() }
 // written again (so the parser's token-advancing functions cannot change a validated path).
 //@ scan[C14.string.value.writers] C14 fieldwriters String.value: NewString NewTemplatedString
 //@ scan[C14.import.path.writers] C14 fieldwriters Import.path: NewImport
+
+// ---- C01: which for loops are the bare form ------------------------------------------------------------------------
+// `for { ... }` is the only loop the compiler may compile without init, condition and post code. A loop that has any
+// of the three is not the bare form (KF-70 fixed: a loop with only a post statement, `for ;;; x++ { ... }`, was
+// taken for the bare form and its post statement was dropped).
+//@ func (*For).IsSimpleLoop
+//@ props C01
+//@ inline
+//@ assume[recv.nonnil] f != nil
+//@ ensures[C01.for.simple] result ==> f.init == nil && f.condition == nil && f.post == nil
